@@ -20,6 +20,7 @@ class Concretizer:
         self.names: dict[str, str] = {}
         self.env: dict[str, float] = {}
         self.degree_mode = False
+        self.name_terms: dict[str, object] = {}
 
     def ev(self, t):
         return self.m.eval(t, model_completion=True)
@@ -52,7 +53,26 @@ class Concretizer:
             s = sym.lit_of_model_value(self.m, v)
             self.names[key] = s if s is not None else f"n{len(self.names)}"
         nm = self.names[key]
+        self.name_terms.setdefault(nm, t)
         return nm
+
+    def column_order(self, IDX, NVfn) -> list[str]:
+        """Variable names in the order the model's index map gives them (fillers for unused positions)."""
+        n = max(1, min(8, self.inum(NVfn(IDX))))
+        slots: dict[int, str] = {}
+        for nm, t in self.name_terms.items():
+            if nm not in self.env:
+                continue
+            pos = self.inum(z3.Select(IDX, t))
+            if 0 <= pos < n and pos not in slots:
+                slots[pos] = nm
+        order = []
+        for i in range(n):
+            order.append(slots.get(i, f"zz_fill{i}"))
+        for nm in self.env:
+            if nm not in order and nm in self.name_terms:
+                order.append(nm)
+        return order
 
     def kind(self, ref) -> str:
         return str(self.ev(self.S.kinds.kind(ref)))
@@ -75,9 +95,15 @@ class Concretizer:
                 return {"cls": "UnaryOp", "operand": {"cls": "Variable", "name": "u"}, "op": "sin"}
             d = max(0, min(4, self.inum(S.SDEG(ref))))
             if d == 0:
-                return {"cls": "Constant", "value": 2.0}
+                if k == "Constant":
+                    return {"cls": "Constant", "value": self.fnum(F("value", R))}
+                return {"cls": "BinaryOp", "left": {"cls": "Constant", "value": 2.0}, "right": {"cls": "Constant", "value": 3.0}, "op": "+"}
             if d == 1:
-                return {"cls": "Variable", "name": "u"}
+                if k == "Variable":
+                    return {"cls": "Variable", "name": self.name(F("name", Name))}
+                return {"cls": "BinaryOp", "left": {"cls": "BinaryOp", "left": {"cls": "Constant", "value": 2.0},
+                                                      "right": {"cls": "Variable", "name": "u"}, "op": "*"},
+                        "right": {"cls": "Constant", "value": 5.0}, "op": "+"}
             return {"cls": "BinaryOp", "left": {"cls": "Variable", "name": "u"}, "right": {"cls": "Constant", "value": float(d)}, "op": "**"}
         if k == "Constant":
             return {"cls": "Constant", "value": self.fnum(F("value", R))}
